@@ -53,3 +53,26 @@ var denyList = map[string]string{
 	"gi:unlock-package":          "unlocks the built-in packages for the rest of the process",
 	"swank:swank-verbose":        "global server setting",
 }
+
+// quotedInForm: pool entries that are put into the form as (quote x) in mode "q".
+var quotedInForm = map[string]bool{"sym": true, "fsym": true, "list12": true, "dotted": true, "nested": true, "alist": true, "lamx": true}
+
+// endlessByDefinition names calls that repeat for ever by the definition of the language, which is not a
+// hang: (do bindings (end-test ...)) and do* when the end-test form is a variable that the binding list
+// itself binds to nil. In mode "q" the first two arguments become (quote x) forms: the binding list binds
+// the variable quote and the end test is the variable quote. In mode "r" the pool's lambda expression
+// binds lambda and tests lambda. Such calls are not driven.
+func endlessByDefinition(c Case) bool {
+	if (c.Fn != "common-lisp:do" && c.Fn != "common-lisp:do*") || len(c.Args) < 2 {
+		return false
+	}
+	if c.Mode == "r" {
+		return c.Args[0] == "lamx" && c.Args[1] == "lamx"
+	}
+	return quotedInForm[c.Args[0]] && quotedInForm[c.Args[1]]
+}
+
+func notDriven(c Case) bool {
+	_, denied := denyList[c.Fn]
+	return denied || endlessByDefinition(c)
+}
